@@ -654,6 +654,57 @@ func c14Aliased(st *c14State, inputs []c14Input) {
 	st.res.Counters["aliased_input_calls"] = n
 }
 
+// c14Periods: counter wrap-arounds. State that is "cleared" by bumping a generation counter instead of being
+// zeroed looks current again after exactly 2^8 or 2^16 calls. For every version: a vector X with every optional
+// metric defined, then d-1 calls on a base-only vector Y, then X again, for d in {255,256,257,65535,65536,65537};
+// every result (the Y calls too) must equal its reference. One goroutine, one P, GC off (pooled state survives).
+func c14Periods(st *c14State) {
+	prev := runtime.GOMAXPROCS(1)
+	defer runtime.GOMAXPROCS(prev)
+	old := debug.SetGCPercent(-1)
+	defer debug.SetGCPercent(old)
+	var n int64
+	for _, api := range probe.APIs {
+		v := api.Ver
+		r := gen.New(st.seed, "C14", "periods", v.Name)
+		X := gen.RandomAssign(r, v)
+		for m, me := range v.Metrics {
+			if !me.Mandatory && X[m] == 0 {
+				X[m] = uint8(1 + r.Intn(len(me.Values)-1))
+			}
+		}
+		sX, sY := v.Canonical(X), v.Canonical(v.ZeroAssign())
+		sigParse(api, sY)
+		refX := sigParse(api, sX)
+		refY := sigParse(api, sY)
+		if !strings.Contains(refX, " vec="+sX+" ") || !strings.Contains(refY, " vec="+sY+" ") {
+			st.mismatch(Violation{Kind: "baseline-disagrees-with-canonical-form", Version: v.Name, Steps: parseSteps(sX), Expected: sX, Observed: refX})
+			continue
+		}
+	dist:
+		for _, d := range []int{255, 256, 257, 65535, 65536, 65537} {
+			if got := sigParse(api, sX); got != refX {
+				st.mismatch(Violation{Kind: "result-depends-on-call-count", Version: v.Name, Steps: parseSteps(sX), Expected: refX, Observed: got, Detail: map[string]any{"workload": "periods", "note": "first call of a period probe"}})
+				break
+			}
+			for i := 1; i < d; i++ {
+				if got := sigParse(api, sY); got != refY {
+					st.mismatch(Violation{Kind: "result-depends-on-call-count", Version: v.Name, Steps: []Step{{Op: "parse", S: sX}, {Op: "parse", S: sY}}, Expected: refY, Observed: got, Detail: map[string]any{"workload": "periods", "calls_since_X": i}})
+					break dist
+				}
+			}
+			n += int64(d)
+			if got := sigParse(api, sX); got != refX {
+				st.mismatch(Violation{Kind: "result-depends-on-call-count", Version: v.Name, Steps: []Step{{Op: "parse", S: sX}, {Op: "parse", S: sY}, {Op: "parse", S: sX}}, Expected: refX, Observed: got,
+					Detail: map[string]any{"workload": "periods", "distance_in_calls": d, "note": fmt.Sprintf("the second step stands for %d calls on the base-only vector; the replay makes one and will not reproduce it", d-1)}})
+				break
+			}
+		}
+	}
+	st.events.Add(n)
+	st.res.Counters["period_probe_calls"] = n
+}
+
 // c14Siblings: sequential histories over SIBLING objects. A memo or cache keyed on a lossy fold of the object
 // (two fields XOR-ed onto the same bits, a byte left out) is right for every single call and for unrelated
 // consecutive calls; it is wrong exactly when two consecutive calls are on objects that differ in the two or three
@@ -1211,6 +1262,7 @@ func C14Child(mode, tier string, seed int64) {
 		c14Aliased(st, inputs)
 	}
 	if mode == "plain" || mode == "asan" {
+		c14Periods(st)
 		if quick {
 			c14Siblings(st, 3, 1)
 		} else {
@@ -1523,7 +1575,7 @@ func CheckC14(c *Ctx) {
 		totalEvents += res.Events + coldEvents
 		distinct += res.ContextPairs
 		summary[b.mode] = map[string]any{"events": res.Events, "distinct_keys": res.Keys, "keys_seen_by_2plus_goroutines": res.KeysMulti, "distinct_(previous,current)_context_pairs": res.ContextPairs,
-			"yields_taken": res.Yields, "sibling_singles": res.Counters["sibling_singles"], "aliased_input_calls": res.Counters["aliased_input_calls"], "sibling_pairs": res.Counters["sibling_pairs"], "sibling_triples": res.Counters["sibling_triples"], "hammer_calls": res.Counters["hammer_calls"], "hammer_phases": res.Counters["hammer_phases"], "strings_reverified": res.StringsRecheck, "sequences": res.Sequences, "pool_reuse_sequences_v2": res.PoolReuse, "race_report_blocks": raw, "race_reports_deduplicated": len(dedup),
+			"yields_taken": res.Yields, "sibling_singles": res.Counters["sibling_singles"], "aliased_input_calls": res.Counters["aliased_input_calls"], "period_probe_calls": res.Counters["period_probe_calls"], "sibling_pairs": res.Counters["sibling_pairs"], "sibling_triples": res.Counters["sibling_triples"], "hammer_calls": res.Counters["hammer_calls"], "hammer_phases": res.Counters["hammer_phases"], "strings_reverified": res.StringsRecheck, "sequences": res.Sequences, "pool_reuse_sequences_v2": res.PoolReuse, "race_report_blocks": raw, "race_reports_deduplicated": len(dedup),
 			"configurations": res.Configs, "wall_s": time.Since(t0).Seconds(), "inputs": res.Counters["inputs"], "fresh_process_baselines": res.Counters["fresh_process_baselines"],
 			"cold_start_processes": coldProcs, "cold_start_first_use_calls": coldEvents}
 		if b.mode == "race-instr" {
@@ -1570,7 +1622,7 @@ func CheckC14(c *Ctx) {
 		c.Extra["yield_points_inserted"] = s
 	}
 	c.SetReport(Report{
-		Rule:        "four builds of the CURRENT tree (plain; -race; -race after the AST yield-point pass that inserts seeded Gosched/sleep calls at loop heads and after call statements of go-cvss; -asan in thorough). In each: (1) baselines of ~40 inputs per version computed after forced double GC in forward and reverse order (must agree with each other, with the grammar/canonical-form oracles and -- plain build -- with the same call made as the first call of a fresh process); (2) sequential histories hostile to pooled scratch buffers under GOMAXPROCS(1)+GC off: ALL ordered pairs per version, all triples for v2 (1/7 for others), random sequences of 2-50 calls across versions -- every result must equal its baseline; (3) goroutines {4,8,16,64} x GOMAXPROCS {1,2,16} hammering the small shared input set, plus a hot-keys phase per repetition over only 2-4 inputs (parse, everything observable of shared read-only objects, Set on local copies, parse-mutate-parse, Rating) with results compared to baselines; (0) cold concurrent starts: short-lived processes in which NO go-cvss call has happened yet release 8-24 goroutines together, round by round, on the same parse + score + Vector call (550 first-use rounds each), judged against the spec oracles; (3b) hammer phases: G goroutines calling ONE method on the same 4 objects in a tight loop with nothing of the harness in between (one phase per scoring method, Vector and ParseVector, per version and repetition; G x GOMAXPROCS in {16x16, 8x4, 4x2, 32x16, 3x3}), each result compared with the quiescent value; (2b) sibling histories (plain, asan): for 3 (thorough 12) background objects per version EVERY object differing from it in exactly one or exactly two metrics (one background, thorough 3: also exactly three), in the histories unrelated,A / A,B / B,A -- results must equal the reference after the unrelated call; (2c) aliased inputs (all builds but the yield pass): all ordered pairs per version with both inputs written into ONE reused buffer and passed as views of it, and as fresh heap copies dropped at once with a GC every 8 calls -- results must equal the baselines; (4) every Vector() string kept next to an immediate clone and re-compared later, forced GC every 10k events; (5) elapsed time: one plain-build process goes idle and wakes at process ages 0.5/1.5/3.5/7.5/15.5/47 s (thorough: also 110/300/910 s), each time making every alphabet call in a rotated order, re-reading the objects parsed at the start and re-setting every metric of clones to its own value -- all must equal the baselines (time is the stimulus, equality the verdict). Race reports are counted from the GORACE log (never from the exit code) and de-duplicated by first-frame pair. evaluations = events; distinct = distinct (previous call, current call) context pairs summed over builds",
+		Rule:        "four builds of the CURRENT tree (plain; -race; -race after the AST yield-point pass that inserts seeded Gosched/sleep calls at loop heads and after call statements of go-cvss; -asan in thorough). In each: (1) baselines of ~40 inputs per version computed after forced double GC in forward and reverse order (must agree with each other, with the grammar/canonical-form oracles and -- plain build -- with the same call made as the first call of a fresh process); (2) sequential histories hostile to pooled scratch buffers under GOMAXPROCS(1)+GC off: ALL ordered pairs per version, all triples for v2 (1/7 for others), random sequences of 2-50 calls across versions -- every result must equal its baseline; (3) goroutines {4,8,16,64} x GOMAXPROCS {1,2,16} hammering the small shared input set, plus a hot-keys phase per repetition over only 2-4 inputs (parse, everything observable of shared read-only objects, Set on local copies, parse-mutate-parse, Rating) with results compared to baselines; (0) cold concurrent starts: short-lived processes in which NO go-cvss call has happened yet release 8-24 goroutines together, round by round, on the same parse + score + Vector call (550 first-use rounds each), judged against the spec oracles; (3b) hammer phases: G goroutines calling ONE method on the same 4 objects in a tight loop with nothing of the harness in between (one phase per scoring method, Vector and ParseVector, per version and repetition; G x GOMAXPROCS in {16x16, 8x4, 4x2, 32x16, 3x3}), each result compared with the quiescent value; (2b) sibling histories (plain, asan): for 3 (thorough 12) background objects per version EVERY object differing from it in exactly one or exactly two metrics (one background, thorough 3: also exactly three), in the histories unrelated,A / A,B / B,A -- results must equal the reference after the unrelated call; (2d) period probes (plain, asan): a vector with every optional metric defined, d-1 calls on a base-only vector, the first vector again, for d in {255,256,257,65535,65536,65537} on one P with GC off -- every result must equal its reference (generation counters that wrap); (2c) aliased inputs (all builds but the yield pass): all ordered pairs per version with both inputs written into ONE reused buffer and passed as views of it, and as fresh heap copies dropped at once with a GC every 8 calls -- results must equal the baselines; (4) every Vector() string kept next to an immediate clone and re-compared later, forced GC every 10k events; (5) elapsed time: one plain-build process goes idle and wakes at process ages 0.5/1.5/3.5/7.5/15.5/47 s (thorough: also 110/300/910 s), each time making every alphabet call in a rotated order, re-reading the objects parsed at the start and re-setting every metric of clones to its own value -- all must equal the baselines (time is the stimulus, equality the verdict). Race reports are counted from the GORACE log (never from the exit code) and de-duplicated by first-frame pair. evaluations = events; distinct = distinct (previous call, current call) context pairs summed over builds",
 		DistinctN:   distinct,
 		Assumptions: []string{"the race detector sees only executed pairs of accesses; interleavings are explored, not enumerated", "dependence on elapsed time is observed only up to the idle gaps lived through (31.5 s quick, 10 min thorough); dependence on the environment (variables, files, clock date) is not driven", "in the plain build every baseline is also recomputed as the first call of a freshly started process; the sanitizer builds rely on the double-GC baseline"},
 	})
